@@ -479,6 +479,10 @@ func (t *Collection) VisitItemsRandom(
 	if err != nil {
 		return err
 	}
+	if si == nil {
+		// Emptied by the mutator since the items were counted: nothing to visit.
+		return nil
+	}
 	err = t.VisitItemsAscendEx(si.Key, false, v)
 	t.store.ItemDecRef(t, si)
 	if err != nil {
@@ -552,6 +556,10 @@ func (t *Collection) VisitItemsAscendBlockEx(
 	si, err := t.MinItem(false)
 	if err != nil {
 		return err
+	}
+	if si == nil {
+		// Emptied by the mutator since the items were counted: nothing to visit.
+		return nil
 	}
 	err = t.VisitItemsAscendEx(si.Key, false, v)
 	t.store.ItemDecRef(t, si)
